@@ -11,6 +11,7 @@ package c19
 
 import (
 	"bytes"
+	"encoding/json"
 	"fmt"
 	"strings"
 
@@ -26,7 +27,8 @@ func init() {
 			{Name: "history", Weight: 3},
 			{Name: "equals", Weight: 2},
 		},
-		Run: run,
+		Run:  run,
+		Enum: enum,
 	})
 }
 
@@ -252,8 +254,9 @@ func runHistory(c *core.Ctx) {
 			got := n.First()
 			if len(model) == 0 {
 				c.Probe("first_on_empty")
-				if got.Ref != "" || len(got.Value) != 0 {
-					c.Fail("model", "C19/First/empty-list", "First() on the empty list = (%q,%q), want the zero entry", string(got.Ref), []byte(got.Value))
+				// (the property does not say what First is on an empty list; it must not invent a text)
+				if len(got.Value) != 0 {
+					c.Fail("model", "C19/First/empty-list", "First() on the empty list = (%q,%q): a text that no entry holds", string(got.Ref), []byte(got.Value))
 				}
 			} else if got.Ref != model[0].tag || !bytes.Equal(got.Value, model[0].text) {
 				c.Fail("model", "C19/First/first-entry", "First() = (%q,%q) on %s", string(got.Ref), []byte(got.Value), renderPairs(model))
@@ -472,4 +475,210 @@ func shuffle(t *core.Tape, b ap.NaturalLanguageValues) {
 		j := t.Draw(i + 1)
 		b[i], b[j] = b[j], b[i]
 	}
+}
+
+
+// ---------------------------------------------------------------- bounded-exhaustive tier
+
+// enumOp is one call of the exhaustive alphabet: kind 0 Set, 1 Append, 2 Add, 3 Get, 4 Count, 5 First.
+type enumOp struct {
+	Kind int `json:"k"`
+	Tag  int `json:"t"`
+	Text int `json:"x"`
+}
+
+type enumCase struct {
+	Init int      `json:"init"` // 0 nil, 1 empty, 2 [("en","a")], 3 [("-","")] with spare capacity
+	Ops  []enumOp `json:"ops"`
+}
+
+var (
+	enumTags  = []ap.LangRef{ap.NilLangRef, "en", ""}
+	enumTexts = []string{"", "a"}
+)
+
+func enumAlphabet() []enumOp {
+	var out []enumOp
+	for k := 0; k < 3; k++ {
+		for t := range enumTags {
+			for x := range enumTexts {
+				out = append(out, enumOp{k, t, x})
+			}
+		}
+	}
+	for t := range enumTags {
+		out = append(out, enumOp{3, t, 0})
+	}
+	return append(out, enumOp{4, 0, 0}, enumOp{5, 0, 0})
+}
+
+func enumInit(i int) ap.NaturalLanguageValues {
+	switch i {
+	case 1:
+		return ap.NaturalLanguageValues{}
+	case 2:
+		return ap.NaturalLanguageValues{{Ref: "en", Value: ap.Content("a")}}
+	case 3:
+		n := make(ap.NaturalLanguageValues, 1, 3)
+		n[0] = ap.LangRefValue{Ref: ap.NilLangRef, Value: ap.Content{}}
+		full := n[:3]
+		full[1] = ap.LangRefValue{Ref: "zz", Value: ap.Content("SENTINEL")}
+		full[2] = full[1]
+		return n
+	}
+	return nil
+}
+
+// runEnumCase executes one explicit history with the same per-step oracle as the seeded histories.
+func runEnumCase(ec *enumCase, c *core.Ctx) {
+	n := enumInit(ec.Init)
+	model := snapshot(n)
+	c.Logf("init %d %s", ec.Init, renderPairs(model))
+	for _, o := range ec.Ops {
+		if c.Failed() {
+			return
+		}
+		tag := enumTags[o.Tag]
+		v := ap.Content(append([]byte{}, enumTexts[o.Text]...))
+		switch o.Kind {
+		case 0:
+			c.Logf("Set(%q,%q)", string(tag), []byte(v))
+			_ = n.Set(tag, v)
+			after := snapshot(n)
+			checkSet(c, model, after, n, tag, v)
+			model = after
+		case 1, 2:
+			name := "Append"
+			if o.Kind == 2 {
+				name = "Add"
+				n.Add(ap.LangRefValue{Ref: tag, Value: v})
+			} else {
+				_ = n.Append(tag, v)
+			}
+			c.Logf("%s(%q,%q)", name, string(tag), []byte(v))
+			want := append(append([]pair(nil), model...), pair{tag: tag, text: v})
+			after := snapshot(n)
+			if !pairsEqual(after, want) {
+				c.Fail("model", "C19/"+name+"/appends-one-entry-at-end", "after %s(%q,%q) on %s the list is %s, want %s", name, string(tag), []byte(v), renderPairs(model), renderPairs(after), renderPairs(want))
+			}
+			model = after
+		case 3:
+			c.Logf("Get(%q)", string(tag))
+			checkGet(c, model, tag, n.Get(tag), "Get")
+		case 4:
+			c.Logf("Count()")
+			if got := n.Count(); got != uint(len(model)) {
+				c.Fail("model", "C19/Count/number-of-entries", "Count() = %d on %s, want %d", got, renderPairs(model), len(model))
+			}
+		case 5:
+			c.Logf("First()")
+			got := n.First()
+			if len(model) == 0 {
+				if len(got.Value) != 0 {
+					c.Fail("model", "C19/First/empty-list", "First() on the empty list = (%q,%q): a text that no entry holds", string(got.Ref), []byte(got.Value))
+				}
+			} else if got.Ref != model[0].tag || !bytes.Equal(got.Value, model[0].text) {
+				c.Fail("model", "C19/First/first-entry", "First() = (%q,%q) on %s", string(got.Ref), []byte(got.Value), renderPairs(model))
+			}
+		}
+		if !c.Failed() {
+			for _, tg := range enumTags {
+				checkGet(c, model, tg, n.Get(tg), "Get(after step)")
+			}
+			if !pairsEqual(snapshot(n), model) {
+				c.Fail("model", "C19/Get/read-only", "a read changed the list from %s to %s", renderPairs(model), renderPairs(snapshot(n)))
+			}
+		}
+	}
+}
+
+// enum: every history of length 1..L (L = 4 quick, 5 thorough) over the 23-letter alphabet
+// {Set, Append, Add} x 3 tags x 2 texts + Get x 3 tags + Count + First, from four initial lists.
+func enum(e *core.EnumCtx) {
+	if len(e.OnlyCase) > 0 {
+		var ec enumCase
+		if err := json.Unmarshal(e.OnlyCase, &ec); err != nil {
+			return
+		}
+		rec := &core.Record{Mode: "enum"}
+		c := &core.Ctx{Rec: rec, Steps: e.Steps, Tier: e.Tier}
+		func() {
+			defer func() {
+				if r := recover(); r != nil {
+					rec.Viol = &core.Violation{Oracle: "panic", Class: "C19/panic", Detail: fmt.Sprint(r)}
+				}
+			}()
+			runEnumCase(&ec, c)
+		}()
+		rec.Sample = c.Trace
+		rec.Steps = *e.Steps
+		e.Emit(rec)
+		return
+	}
+	maxLen := 4
+	if e.Tier == "thorough" {
+		maxLen = 5
+	}
+	alpha := enumAlphabet()
+	cases := 0
+	reported := map[string]bool{}
+	sampled := false
+	// shard by (initial list, first letter)
+	slot := 0
+	for init := 0; init < 4; init++ {
+		for first := range alpha {
+			slot++
+			if slot%e.Shards != e.Shard || e.Expired() {
+				continue
+			}
+			e.Begin(fmt.Sprintf("init%d/first%d", init, first))
+			ops := []enumOp{alpha[first]}
+			var rec func()
+			rec = func() {
+				if cases&1023 == 0 && e.Expired() {
+					return
+				}
+				ec := &enumCase{Init: init, Ops: ops}
+				r := &core.Record{Mode: "enum"}
+				c := &core.Ctx{Rec: r, Steps: e.Steps, Tier: e.Tier}
+				func() {
+					defer func() {
+						if p := recover(); p != nil {
+							r.Viol = &core.Violation{Oracle: "panic", Class: "C19/panic", Detail: fmt.Sprint(p)}
+						}
+					}()
+					runEnumCase(ec, c)
+				}()
+				cases++
+				if r.Viol != nil && !reported[r.Viol.Class] {
+					reported[r.Viol.Class] = true
+					raw, _ := json.Marshal(&enumCase{Init: init, Ops: append([]enumOp(nil), ops...)})
+					r.Plan = &core.Plan{Property: "C19", Tier: e.Tier, Mode: "enum", Case: raw}
+					r.Sample = c.Trace
+					e.Emit(r)
+				} else if r.Viol == nil && !sampled && len(ops) == maxLen && e.Shard == 0 {
+					sampled = true
+					r.Sample = c.Trace
+					e.Emit(r)
+				}
+				if len(ops) == maxLen {
+					return
+				}
+				for _, o := range alpha {
+					ops = append(ops, o)
+					rec()
+					ops = ops[:len(ops)-1]
+				}
+			}
+			rec()
+		}
+	}
+	if e.Sum.Extra == nil {
+		e.Sum.Extra = map[string]any{}
+	}
+	e.Sum.Extra["enum_cases"] = float64(cases)
+	// every enumerated (initial list, call sequence) tuple is distinct by construction; it counts as
+	// non-trivial when it contains a state-changing call, which all but the read-only sequences do
+	e.Sum.Extra["enum_distinct_nontrivial"] = float64(cases)
+	e.Sum.Extra["enum_max_len"] = fmt.Sprint(maxLen)
 }
